@@ -167,7 +167,7 @@ type GenOpts struct {
 	TableIDReuse bool   // several ids, re-announcements, type changes
 	OddNames     bool   // unusual binlog file names
 	CountChange  bool   // C15: a cached table id is re-announced with another column count
-	LongIdle     bool   // C17: rarely, thousands of tiny ignorable events in front (round packet ordinals)
+	LongIdle     int    // C17: one history in LongIdle gets thousands of tiny ignorable events in front (round packet ordinals)
 	PoisonJSON   bool   // C06: a JSON value the decoder must reject (decode failure ends the stream with an error)
 	Rare         bool   // enable the rare-coincidence modes (long histories, exact packet sizes, many rows, extreme timestamps)
 	ReplicaID    uint32 // the replica's own server id (events may legitimately carry it: circular topologies)
@@ -1247,7 +1247,7 @@ func genHistory(s *Stream, o0 *GenOpts) *History {
 		}
 	}
 	b.startFile(b.nextFileName(), gap)
-	if o.LongIdle && s.Chance(1, 200) {
+	if o.LongIdle > 0 && s.Chance(1, o.LongIdle) {
 		b.filler = []int{1000, 1024, 4096, 10000}[s.Weighted(1, 1, 1, 2)] + 8
 		b.addUnit(uIgnorable)
 	}
